@@ -53,6 +53,8 @@ pub struct Outcome {
     /// hash of the canonical case text (distinctness)
     pub key: u64,
     pub labels: Vec<String>,
+    /// a human-readable rendering of what the case was decoded to (for evidence samples)
+    pub readable: Option<String>,
 }
 
 impl Outcome {
@@ -62,6 +64,7 @@ impl Outcome {
             nontrivial,
             key,
             labels: vec![],
+            readable: None,
         }
     }
     pub fn skip(why: &'static str) -> Outcome {
@@ -70,6 +73,7 @@ impl Outcome {
             nontrivial: false,
             key: 0,
             labels: vec![],
+            readable: None,
         }
     }
     pub fn fail(signature: impl Into<String>, message: impl Into<String>) -> Outcome {
@@ -81,7 +85,12 @@ impl Outcome {
             nontrivial: true,
             key: 0,
             labels: vec![],
+            readable: None,
         }
+    }
+    pub fn readable(mut self, text: impl Into<String>) -> Outcome {
+        self.readable = Some(text.into());
+        self
     }
     pub fn label(mut self, l: impl Into<String>) -> Outcome {
         self.labels.push(l.into());
@@ -325,7 +334,11 @@ impl<C: Check> Campaign<C> {
                     if outcome.nontrivial {
                         let fresh = res.keys.insert(outcome.key);
                         if fresh && res.samples.len() < 2 && (shard < 3) {
-                            res.samples.push(self.0.describe(&case));
+                            let mut d = self.0.describe(&case);
+                            if let (Some(r), Some(obj)) = (&outcome.readable, d.as_object_mut()) {
+                                obj.insert("decoded".into(), Value::String(r.chars().take(3000).collect()));
+                            }
+                            res.samples.push(d);
                         }
                     }
                 }
